@@ -51,6 +51,27 @@ def run(ctx):
                    "R20.1", "integrate[start value]",
                    "the value that reaches integrated_signal[0] at the return is start_value (the stepping loop starts at 1 "
                    "and never rewrites index 0)", f.loc(), derived=e0, required=start)
+    # the buffer the running integral is written into takes its element type from its allocation: `np.empty_like(x)` inherits the
+    # dtype of x, so it must be allocated like the signal (or as a plain float buffer), never like the time axis (an integer time
+    # axis would truncate the start value and every partial sum)
+    import ast as _ast
+    from .fc import returned_name, local_assignments
+    rn = returned_name(f.node)
+    allocs = [d[1] for d in local_assignments(f.node).get(rn or "?", []) if d[0] == "assign" and isinstance(d[1], _ast.Call)]
+    likes = [c for c in allocs if _ast.unparse(c.func).split(".")[-1] in ("empty_like", "zeros_like", "ones_like", "full_like") and c.args]
+    plain = [c for c in allocs if _ast.unparse(c.func).split(".")[-1] in ("empty", "zeros", "ones", "full")]
+    if len(likes) == 1 and isinstance(likes[0].args[0], _ast.Name):
+        src = likes[0].args[0].id
+        dt_kw = [k for k in likes[0].keywords if k.arg == "dtype"]
+        verdict = True if (src == f.params[1] or dt_kw) else (False if src == f.params[0] else None)
+        ctx.expect(verdict, "R20.1", "integrate[output buffer]",
+                   "the output is allocated with the shape and element type of the signal", f.loc(likes[0]),
+                   derived=_ast.unparse(likes[0]), required=f"np.empty_like({f.params[1]})")
+    elif plain and not likes:
+        ctx.ok("R20.1", "integrate[output buffer]", "the output is a freshly allocated floating point buffer", f.loc(plain[0]),
+               derived=_ast.unparse(plain[0]))
+    else:
+        ctx.unsure("R20.1", "integrate[output buffer]", "allocation of the output buffer not recognised", f.loc())
     # Everything else is read off the step itself, not off local variable names: the carried output array's final value
     # is store(out, i, out[i-1] + dt * sum_j S[j - js] * signal[i + j]) over range(js, je)
     step = _parse_step(L, lv, signal)
@@ -157,7 +178,7 @@ def run(ctx):
     envres.check_ext_used(ctx, it, "R20.4", "integrate")
     ctx.absorb(it)
     ctx.notes.extend(it.unknown_notes[:5])
-    ctx.require_count("R20.1", 1)
+    ctx.require_count("R20.1", 2)
     ctx.require_count("R20.2", 9)
     ctx.require_count("R20.3", 2)
     ctx.require_count("R20.5", 11)
